@@ -681,16 +681,13 @@ impl BinArchive {
     }
 
     pub fn truncate(&mut self, address: usize) -> Result<()> {
-        if address >= self.data.len() {
+        if address > self.data.len() {
             return Ok(());
         }
-        let range = address..self.data.len();
-        self.data.drain(range.clone());
-        for i in range.step_by(4) {
-            self.text.remove(&i);
-            self.labels.remove(&i);
-            self.pointers.remove(&i);
-        }
+        self.data.truncate(address);
+        self.text.retain(|addr, _| *addr < address);
+        self.labels.retain(|addr, _| *addr < address);
+        self.pointers.retain(|addr, _| *addr < address);
         self.cstrings = filter_cstrings(&self.cstrings, address..usize::MAX);
         Ok(())
     }
